@@ -12,7 +12,7 @@ from ..paths import show
 from ..report import Report
 from ..table import fmt_val
 from .c05 import check_sanitised
-from .common import HANDLE_FAILURE, RUNNERS, SELF, attr, path_where, runner_paths
+from .common import HANDLE_FAILURE, RUNNERS, SELF, attr, path_where, runner_paths, owned_by
 from .failure_table import failure_table
 from .runner_flow import RunnerClient, flag1, run_runners, short_witness
 
@@ -289,7 +289,7 @@ def run(rep: Report, prog: Program, tier: str) -> None:
         for n in prog._own_nodes(fn.node):
             if isinstance(n, ast.Attribute) and n.attr in ("start_mono", "deadline") and isinstance(n.ctx, ast.Store):
                 rep.instance("R2.6", f"writer|{fn.qual}|{n.attr}")
-                if fn.qual in (init.qual, binit.qual):
+                if owned_by(prog, fn, (init.qual, binit.qual)):
                     rep.ok("R2.6")
                 else:
                     rep.fail("R2.6", f"writer|{fn.qual}|{n.attr}", f"{fn.qual} re-binds `{n.attr}` (the clock origin / deadline must not move during a run)", where=fn.where(n), function=fn.qual)
